@@ -197,6 +197,12 @@ func genC10(g *Gen, idx int) *Plan {
 	}
 	p.Peers = []PeerPlan{{Name: "p1", Ops: sg.ops, Policy: PeerPolicy{Will: "ignore", NoWait: true}}}
 	p.Broker.SilentTypes = []string{"CONNECT"}
+	if g.Bool(0.2) {
+		// the broker stops reading in the middle of the MQTT CONNECT: the gateway's write is blocked
+		// half-way when the connect timeout strikes
+		p.Family += "+broker-reads-" + "part"
+		p.Broker.ReadsOnly = int(g.Range(1, 13))
+	}
 	p.Cfg.HorizonMs = sg.t + 9000
 	return p
 }
@@ -448,8 +454,11 @@ func genC13(g *Gen, idx int) *Plan {
 	}
 	at := sg.t + g.Range(0, 1500)
 	causes := []string{"shutdown", "disconnect", "fin", "rst", "garbage", "illegal", "connect-timeout", "shutdown"}
-	if g.Bool(0.5) {
+	switch g.Intn(3) {
+	case 0:
 		causes[7] = "write-error"
+	case 1:
+		causes[7] = "dial-fail"
 	}
 	ck := causes[causeK]
 	p.Family = fmt.Sprintf("C13-life%d-%s", kind, ck)
@@ -457,6 +466,10 @@ func genC13(g *Gen, idx int) *Plan {
 	switch ck {
 	case "shutdown":
 		p.Cfg.ShutdownAtMs = at
+	case "dial-fail":
+		// not a cause the property names either: the broker cannot be reached when the session begins
+		p.Broker.DialFail = []string{"refuse", "timeout"}[g.Intn(2)]
+		p.Cfg.ShutdownAtMs = at + g.Range(500, 3000)
 	case "write-error":
 		// not one of the causes the property names: from some write on, the gateway's writes to the client
 		// fail; whenever and however the session ends then, it must release everything (the final
@@ -634,7 +647,7 @@ func genC34(g *Gen, idx int) *Plan {
 
 func init() {
 	Register(&Check{ID: "C10", Level: "fault_enumeration",
-		Rule:   "25 connect-exchange scripts (every prefix of CONNECT[will][AUTH][WILLTOPIC][WILLMSG], repeated CONNECT/AUTH/WILLTOPIC, a refused step: wildcard/QoS 3/empty WILLTOPIC, AUTH with another method, CONNECT with zero keep-alive or an unknown protocol id while an exchange is open) after which the peer is silent; complete scripts face a broker that never answers CONNECT; each script with seeded timing, link latency and yield sites; virtual-time deadline = last CONNECT + 5 s + 100 ms poll + 3 ms slack; non-trivial = session in which a CONNECT was consumed and no broker CONNACK arrived",
+		Rule:   "25 connect-exchange scripts (every prefix of CONNECT[will][AUTH][WILLTOPIC][WILLMSG], repeated CONNECT/AUTH/WILLTOPIC, a refused step: wildcard/QoS 3/empty WILLTOPIC, AUTH with another method, CONNECT with zero keep-alive or an unknown protocol id while an exchange is open) after which the peer is silent; complete scripts face a broker that never answers CONNECT, in a fifth of the runs one that stops reading after 1-13 bytes (the gateway's write of the MQTT CONNECT is blocked half-way); each script with seeded timing, link latency and yield sites; virtual-time deadline = last CONNECT + 5 s + 100 ms poll + 3 ms slack; non-trivial = session in which a CONNECT was consumed and no broker CONNACK arrived",
 		Gen:    genC10, Oracle: oracleC10, Quick: 1000, Thorough: 60000})
 	Register(&Check{ID: "C13", Level: "fault_enumeration",
 		Rule:   "8 session scripts (unconnected, connecting, active idle, active with traffic and pending QoS 1/2 transactions, asleep, asleep with pinger, awake, back from sleep with CONNECT while QoS 0-2 messages wait in the buffer with retry timers of a few ms and a slow gateway) x 7 causes (gateway shutdown, plain DISCONNECT, broker FIN, broker RST, undecodable datagram, illegal packet, connect timeout) at a seeded instant; deadline = cause + 100 ms + 3 ms; DISCONNECT-to-client rule; goroutine census of gateway/transactions/util frames after final shutdown; non-trivial = a termination cause occurred",
